@@ -1,0 +1,5 @@
+//go:build !verif
+
+package obfs4
+
+func verifGate(string, []byte) {}
